@@ -197,7 +197,10 @@ public:
     template<typename Fn>
     CXX20_REQUIRES(ReturnsFuture<Fn, T>)
     shared_future<T> &operator<<(Fn &&fn) noexcept {
+        init_if_needed();
         _ptr->operator <<(std::forward<Fn>(fn));
+        //keep the state alive until it is resolved (as the constructor does)
+        if (_ptr->pending()) _ptr->resolve_tracer.charge(_ptr);
         return *this;
     }
 
